@@ -577,6 +577,7 @@ func (r *run) restPatch(e Ev) {
 	r.probe("rest-patch")
 	res := r.sendAs("rest", "PatchDocument", &model.PatchMessage{Collection: a.collection, Key: key, Json: target})
 	r.logf("REST patch %s/%s -> %s : err=%v", a.collection, key, clip(target, 200), res.err)
+	r.noteRest("rest", res)
 	if existing != nil && existing.doc.Type != model.TypeOfDatatype_DOCUMENT.String() {
 		if res.err == nil {
 			r.fail("rest", "C19.rest-refuses-non-document", "accepted", "PatchDocument on %s, which holds a %s, was accepted", key, existing.doc.Type)
@@ -622,6 +623,95 @@ func (r *run) restPatch(e Ev) {
 	}
 	if !found {
 		r.fail("rest", "C19.rest-ops-appended", "no-datatype", "PatchDocument(%s/%s) succeeded but no datatype is stored", a.collection, key)
+	}
+}
+
+// noteRest keeps the outcome of a REST call for the observations of scenario runs.
+func (r *run) noteRest(who string, res callResult) {
+	if !r.cfg.Observe {
+		return
+	}
+	out := "error"
+	if res.err == nil {
+		out = "ok:"
+		if pm, _ := res.msg.(*model.PatchMessage); pm != nil {
+			out += pm.Json
+		}
+	}
+	r.restLog = append(r.restLog, who+"="+out)
+}
+
+// parPatch: two REST patches of the same key are sent at the same moment; the database is slow on one
+// command of whichever holds the key, so the other one may run out of patience at the key's lock.
+// Whatever happens to each: it is answered, and an answer that is not an error carries its target.
+func (r *run) parPatch(e Ev) {
+	w := r.w
+	a := r.actor(e.A)
+	key := e.K
+	if key == "" {
+		key = "restkey"
+	}
+	g := kernel.NewRng(e.S + 4242)
+	colNum := r.collNum(a.collection)
+	dts, _ := r.readStore()
+	for _, duid := range sortedKeys(dts) {
+		if di := dts[duid]; di.doc.CollectionNum == colNum && di.doc.Key == key && di.doc.Type != model.TypeOfDatatype_DOCUMENT.String() {
+			return // not a document: covered by restPatch
+		}
+	}
+	targets := []string{
+		kernel.Canon(map[string]interface{}{"who": "first", "n": float64(g.Intn(100))}),
+		kernel.Canon(map[string]interface{}{"who": "second", "list": []interface{}{float64(g.Intn(9)), "x"}}),
+	}
+	names := []string{"rest-a", "rest-b"}
+	dones := make([]chan callResult, 2)
+	for i := range names {
+		i := i
+		dones[i] = make(chan callResult, 1)
+		ep := &endpoint{t: w.tr, name: names[i]}
+		req := &model.PatchMessage{Collection: a.collection, Key: key, Json: targets[i]}
+		go func() {
+			m, err := ep.t.issue(ep.name, "PatchDocument", req)
+			dones[i] <- callResult{msg: m, err: err}
+		}()
+		synctest.Wait()
+	}
+	f := &focus{calls: map[*call]bool{}, owners: map[string]bool{}}
+	for _, c := range w.tr.byState("queued") {
+		if c.client == names[0] || c.client == names[1] {
+			f.calls[c] = true
+			f.owners[callOwner(c)] = true
+		}
+	}
+	r.probe("rest-patch-pair")
+	r.probe("rest-patch")
+	mf := []MongoFault{{At: 2 + g.Intn(6), Kind: []string{"stall", "slow", "stall"}[g.Intn(3)]}}
+	r.pump(f, g, mf, false, "")
+	synctest.Wait()
+	for i := range names {
+		var res callResult
+		select {
+		case res = <-dones[i]:
+		default:
+			r.fail("answered", r.prop+".answered", "no-answer/parpatch", "PatchDocument(%s/%s) sent together with another patch of the same key got no answer", a.collection, key)
+			continue
+		}
+		r.logf("REST patch %s of %s/%s -> err=%v", names[i], a.collection, key, res.err)
+		r.noteRest(names[i], res)
+		if res.err != nil {
+			r.probe("rest-patch-pair-refused")
+			continue // "key busy" (or any other error) is an answer
+		}
+		pm, _ := res.msg.(*model.PatchMessage)
+		got := ""
+		if pm != nil {
+			got = pm.Json
+		}
+		if got == "" || kernel.CanonBytes([]byte(got)) != targets[i] {
+			r.fail("rest", "C19.rest-response-equals-target", "concurrent/response-differs", "PatchDocument(%s/%s) sent together with another patch of the same key was answered without error, but not with its target:\n  target  : %s\n  response: %q", a.collection, key, targets[i], got)
+			r.fail("refuse", "C16.answered", "concurrent-patch/empty-success", "PatchDocument(%s/%s) sent together with another patch of the same key was answered without error, but not with its target (a refusal has to be an error):\n  target  : %s\n  response: %q", a.collection, key, targets[i], got)
+			r.fail("serial", "C12.every-call-returns", "concurrent-patch/empty-success", "PatchDocument(%s/%s) sent together with another patch of the same key was answered without error, but not with its target:\n  target  : %s\n  response: %q", a.collection, key, targets[i], got)
+		}
 	}
 }
 
